@@ -148,21 +148,21 @@ inductive Gran where
   | filter (a : Key) (i : Nat)
   deriving Repr, DecidableEq
 
-/-- the section an injected defect lies in, by its path -/
+/-- the section an injected defect lies in, by its path: everything at or below an appender's
+entry is that appender's, everything at or below one of its filter entries is that filter's -/
 def granOf (cls : String) (path : List Step) : Gran :=
   if cls = "-" ∨ cls = "null" then .none else
   match path with
   | .key top :: .key a :: rest =>
     if top = c!"appenders" then
       match rest with
-      | .key f :: .idx i :: _ :: _ =>
+      | .key f :: .idx i :: inner =>
         if f = c!"filters" then
           -- the threshold filter's config does not deny unknown keys, and the statement's list of
           -- denying sections does not include filters
-          (if cls = "unk" then .none else .filter a i)
+          (if cls = "unk" ∧ !inner.isEmpty then .none else .filter a i)
         else .appender a
-      | _ :: _ => .appender a
-      | [] => .doc
+      | _ => .appender a
     else .doc
   | _ => .doc
 
@@ -193,13 +193,19 @@ def prescribed (cfg : LogicalConfig) (g : Gran) (probes : List (Key × Nat)) (pr
     let r := dropFilter a i (meaning cfg)
     renderBuilt (buildLossyNames r) probes prog ++ " " ++ renderStrict (strictOf r)
 
-/-- acceptable observation lines.  `interval: 0` without `modulate` is degenerate but harmless at
-load time: the specification accepts both rejecting the appender and accepting it. -/
+/-- degenerate-but-well-typed time-trigger numbers: `interval: 0` (with or without `modulate`) and an
+absurdly large count.  The statement asks that such values do no harm at load time (no panic, the
+formats agree, nothing else disturbed); whether the appender is refused (reported and dropped) or
+accepted with a harmless meaning (the code since /repo 80d997f: a count below 1 counts as 1, an
+absurd count means "never roll") is left open — the specification accepts both. -/
+def degenerateTime (cls : String) : Bool := cls = "zero" ∨ cls = "zeromod" ∨ cls = "big"
+
 def progOf (cls : String) : String := if cls = "-" ∨ cls = "null" then "same" else "skip"
 
+/-- acceptable observation lines -/
 def acceptable (cfg : LogicalConfig) (cls : String) (path : List Step) (probes : List (Key × Nat)) :
     List String :=
   let one := fun g => let o := prescribed cfg g probes (progOf cls); renderFormats o o o
-  if cls = "zero" then [one (granOf cls path), one .none] else [one (granOf cls path)]
+  if degenerateTime cls then [one (granOf cls path), one .none] else [one (granOf cls path)]
 
 end Log4rs.ConfigDoc
